@@ -161,6 +161,27 @@ class Minimiser:
                         hist = cand
                         world = cw
                         changed = True
+            # configs sharing a cache must keep equal snippet tables (A1): drop entries from all of them at once
+            by_cache = {}
+            for cid in sorted(world['configs']):
+                c = world['configs'][cid].get('cache')
+                if c is not None:
+                    by_cache.setdefault(c, []).append(cid)
+            for c, cids in sorted(by_cache.items()):
+                if len(cids) < 2:
+                    continue
+                keys = set()
+                for cid in cids:
+                    keys.update((world['configs'][cid].get('snippets') or {}).keys())
+                for k in sorted(keys):
+                    cw = jcopy(world)
+                    for cid in cids:
+                        (cw['configs'][cid].get('snippets') or {}).pop(k, None)
+                    cand = dict(hist, world=cw)
+                    if self.fails(cand):
+                        hist = cand
+                        world = cw
+                        changed = True
             for gid in sorted(world['globals']):
                 for part in sorted(world['globals'][gid]):
                     cw = jcopy(world)
